@@ -719,6 +719,10 @@ class InterpolatedPredictionStrategy(DefaultPredictionStrategy):
         if self.uses_wiski:
             precomputed_cache = self.fantasy_covar_cache
             fps = settings.fast_pred_samples.on()
+            if (fps and precomputed_cache[0] is None) or (not fps and precomputed_cache[1] is None):
+                # the cache was computed under the other value of fast_pred_samples (same as for covar_cache below)
+                pop_from_cache(self, "fantasy_covar_cache")
+                precomputed_cache = self.fantasy_covar_cache
             if fps:
                 root = left_interp(test_interp_indices, test_interp_values, precomputed_cache[0].to_dense())
                 res = RootLinearOperator(root)
